@@ -94,7 +94,10 @@ impl Cors {
         let origin = boxed_origin.unwrap();
         let origin_value = format!("{}", origin.value);
 
-        let is_valid_origin = allow_origins.contains(&origin_value);
+        let is_valid_origin = allow_origins
+            .split(",")
+            .map(|allowed_origin| allowed_origin.trim())
+            .any(|allowed_origin| allowed_origin.len() != 0 && allowed_origin == origin_value.as_str());
         if !is_valid_origin {
             return Ok(headers)
         }
@@ -165,7 +168,10 @@ impl Cors {
         let origin = boxed_origin.unwrap();
         let origin_value = format!("{}", origin.value);
 
-        let is_valid_origin = allow_origins.contains(&origin_value);
+        let is_valid_origin = allow_origins
+            .split(",")
+            .map(|allowed_origin| allowed_origin.trim())
+            .any(|allowed_origin| allowed_origin.len() != 0 && allowed_origin == origin_value.as_str());
         if !is_valid_origin {
             return Ok(headers)
         }
